@@ -13,34 +13,34 @@ E3 = "E3 controlled-scheduler explorer"
 T_REF = "Trusted: the harness reference matcher (frmc-core/src/refsem.rs), rustc, regex-automata's behaviour inside delegates."
 BUILT = {
  "C01": (E1, "bounded-exhaustive enumeration of (pattern, text, offset) executions of the real crate against a reference matcher",
-         "Every pattern of EXH(k) and of the context x filler product, every text over the alphabet up to the length bound and every start offset is executed on the real crate and compared with the reference ordered-backtracking matcher (atomic look-arounds); the verdict is 'no execution in this finite space diverges'. Nothing is claimed beyond the bounds.",
+         "Every pattern of EXH(k) and of the context x filler product, every text over the alphabet up to the length bound and every start offset is executed on the real crate and compared with the reference ordered-backtracking matcher (atomic look-arounds); the verdict is 'no execution in this finite space diverges'. Plus sweeps that are exhaustive in one parameter the grammar keeps tiny: long regular texts (tall), and every repeat bound N up to 1100 / 4200 in delegated, VM-interpreted, look-behind and nullable-body forms with closed-form oracles. Nothing is claimed beyond the bounds.",
          T_REF + " Cases in which the reference takes an empty optional iteration of an unbounded repeat (class F1) are outside its domain (skipped, counted).", "DESIGN.md §5 C01"),
  "C02": (E1, "bounded-exhaustive enumeration of executions against a reference matcher (capture groups of the winning path)",
-         "Same finite space as C01 restricted to patterns with groups; whenever both sides match with the same span every capture group and the number of groups are compared with the reference's winning path.",
+         "Same finite space as C01 restricted to patterns with groups; whenever both sides match with the same span every capture group and the number of groups are compared with the reference's winning path. Plus the wide sweep: k = 4..32 empty groups inserted in front of every group of every pattern (many slots in one backtrack frame), original groups must keep their results.",
          T_REF, "DESIGN.md §5 C02"),
  "C03": (E1, "bounded-exhaustive metamorphic enumeration: every injection site of (?=) x texts x offsets, base versus variant on the real crate",
-         "Every base pattern x every single injection site of the empty look-ahead (and the all-sites variant) x all texts x offsets: base and variant are both executed on the real crate and all groups compared; counters show how many injections moved the delegation boundary.",
+         "Every base pattern x every single injection site of the empty look-ahead (and the all-sites variant) x all texts x offsets: base and variant are both executed on the real crate and all groups compared; counters show how many injections moved the delegation boundary. Plus every repeat bound N (plain against (?=)-injected) and every cased Unicode scalar value under (?i).",
          "No reference model; trusted: (?=) matches the empty string everywhere. Divergences of class-F1 base patterns are attributed to the known finding KF-F1 by the class predicate.", "DESIGN.md §5 C03"),
  "C04": (E1, "bounded-exhaustive differential enumeration against the regex crate over the whole API",
-         "Every common-syntax pattern up to the node bound x flag prefixes x inline flag atoms x all texts: every API (is_match, find, captures, iterators, split, splitn, replacen with templates/closure/NoExpand, group metadata) is compared value by value with regex::Regex built from the identical string.",
+         "Every common-syntax pattern up to the node bound x flag prefixes x inline flag atoms x all texts: every API (is_match, find, captures, iterators, split, splitn, replacen with templates/closure/NoExpand, group metadata) is compared value by value with regex::Regex built from the identical string. Plus every repeat bound N up to 1100 / 4200 (and width edges up to 70 000) and every cased Unicode scalar value under (?i) against the regex crate.",
          "Trusted oracle: the regex crate at the version of the repository's lock file. Known findings KF-F1 (class predicate, VM-compiled only) and KF-FLAG-SCOPE (hook switch H7) are attributed, everything else is a violation.", "DESIGN.md §5 C04"),
  "C05": (E1, "bounded-exhaustive enumeration of all search entry points over the unrestricted grammar and multi-byte texts (panic / span validity / termination oracle)",
-         "Every pattern of the unrestricted grammar (self-referential backreferences, empty loops, \\K/\\G anywhere, conditionals) x texts mixing 1-4 byte characters x every offset x every public search entry point; oracle: returns normally, every span valid and on char boundaries, iterators end within len+2 items.",
+         "Every pattern of the unrestricted grammar (self-referential backreferences, empty loops, \\K/\\G anywhere, conditionals) x texts mixing 1-4 byte characters x every offset x every public search entry point; oracle: returns normally, every span valid and on char boundaries, iterators end within len+2 items. Plus the wide sweep (up to 38 groups) with every span validated.",
          "catch_unwind sees every panic; hook horizons (fuel, branch-stack cap) cut looping runs so that they are reported instead of waited for.", "DESIGN.md §5 C05"),
  "C06": (E1P, "exhaustive enumeration of token sequences up to a length bound (plus fixed probes and mutations), each compiled in an isolated worker under a counting allocator",
          "All token sequences up to length 3 (quick) / 4 (thorough, 8.6e7 strings) over a 99-token vocabulary plus depth/size probes and single-character mutations of valid patterns; oracle: Ok or Err, no panic (overflow checks on), error position <= length, heap and wall-clock under explicit caps, the process survives.",
          "'Proportional' is checked against explicit caps (64 MiB + 4 KiB per byte, 5 s), not proved. Allocation failure / native stack overflow kill a worker process; the crashing input is identified by a careful-mode re-run.", "DESIGN.md §5 C06"),
  "C07": (E1, "bounded-exhaustive enumeration of (pattern, text, offset, backtrack limit) executions with exact thresholds read through a hook",
-         "Every pattern of the unrestricted space x texts x offsets x limits {0,1,2,3,5,10,100,1e6} and B-1, B, B+1 (B = backtracks of the unlimited run, hook H1): limit results are the unlimited answer or BacktrackLimitExceeded, exact at the threshold; no limit error when the reference exploration is tiny; instruction count and stack depth within a product bound.",
+         "Every pattern of the unrestricted space x texts x offsets x limits {0,1,2,3,5,10,100,1e6} and B-1, B, B+1 (B = backtracks of the unlimited run, hook H1): limit results are the unlimited answer or BacktrackLimitExceeded, exact at the threshold; no limit error when the reference exploration is tiny; a tall pass over long regular texts and a large-count sweep over nullable bodies on tiny texts under default limits; instruction count and stack depth within a product bound.",
          "Hook H1 counters are incremented next to the crate's own backtrack counter. Termination is observed against horizons (fuel 4e5 instructions, branch stack 3e4).", "DESIGN.md §5 C07"),
  "C08": (E1, "bounded-exhaustive enumeration of complete next() histories of the real iterator against an iteration model (iterator state read back after every call)",
          "Every pattern (\\G and \\K at every position) x all texts: the real Matches iterator is driven to None and beyond; invariants on every history, equality with the iteration model over the reference matcher (or over the crate's own find_from_pos for class F1), error histories via backtrack limits 0,1,2; the iterator's internal state (last_end,last_match) is read from its Debug output after every call.",
          "Trusted: iteration model (frmc-core/src/itermodel.rs) and reference matcher.", "DESIGN.md §5 C08"),
  "C09": (E1, "bounded-exhaustive enumeration; mutual consistency of the entry points on every (pattern, text, offset)",
-         "Every pattern of the unrestricted space x texts x offsets: is_match <=> find <=> captures, captures.get(0) == find, captures_iter spans == find_iter spans in order; no reference model involved.",
+         "Every pattern of the unrestricted space x texts x offsets: is_match <=> find <=> captures, captures.get(0) == find, captures_iter spans == find_iter spans in order; also on long regular texts of 32+ bytes (tall pass); no reference model involved.",
          "None beyond rustc.", "DESIGN.md §5 C09"),
  "C10": (E1, "bounded-exhaustive enumeration of split/splitn histories (limits 0..5, polled past the end) against a model over the crate's own find_iter",
-         "Every pattern x all texts x limits 0..5: pieces are the gaps between consecutive find_iter matches, interleaving rebuilds the input, splitn yields min(n, pieces) items with the untouched remainder last; fusedness checked.",
+         "Every pattern x all texts x limits 0..5: pieces are the gaps between consecutive find_iter matches, interleaving rebuilds the input, splitn yields min(n, pieces) items with the untouched remainder last; fusedness checked. Texts include 3- and 4-byte characters.",
          "Oracle: split/splitn model over the crate's own find_iter (which C08 checks).", "DESIGN.md §5 C10"),
  "C11": (E1, "bounded-exhaustive enumeration of (pattern, text, limit, replacer) against a replacement model and a reference template expander",
          "Every pattern x texts x limits 0..3 x replacers (templates as &str/&String/Cow, NoExpand, closures): result equals the model (first n matches replaced by the reference expansion, other bytes copied), Borrowed iff no match, fast path == slow path, errors are Err not panics.",
@@ -49,28 +49,28 @@ BUILT = {
          "All templates up to length 5 (quick) / 7 (thorough, 1.1e8) over a 14-character alphabet x 4 capture sets x both expanders x 5 entry points (which must agree) against an independent implementation of the documented syntax; escape round-trip; check() accepts only valid references.",
          "Oracle: frmc-core/src/expandref.rs, written from the doc comments only.", "DESIGN.md §5 C12"),
  "C13": (E1, "bounded-exhaustive enumeration; every static size fact checked against all lengths the reference matcher observes for that sub-expression over all texts",
-         "Every pattern x every sub-expression: the all-paths span recorder of the reference matcher (over the public Expr tree) yields the set of lengths the node matches on all texts and starts; min_size / const_size (hook H2) must be sound; look-behinds showing two lengths must be rejected with LookBehindNotConst; accepted look-behinds are compared with the reference on multi-byte texts.",
+         "Every pattern x every sub-expression: the all-paths span recorder of the reference matcher (over the public Expr tree) yields the set of lengths the node matches on all texts and starts; min_size / const_size (hook H2) must be sound; look-behinds showing two lengths must be rejected with LookBehindNotConst; look-behinds whose constant size is a large count N (every N up to 1100 / 4200) look back exactly N characters; accepted look-behinds are compared with the reference on multi-byte texts.",
          "Observation is a lower approximation of 'can match', so the facts check cannot raise a false alarm. The parser-private \\n*$ atom of \\Z is exempt.", "DESIGN.md §5 C13"),
  "C14": (E1, "bounded-exhaustive metamorphic enumeration over builder options",
-         "Every mixed-case pattern (inner (?-i:..)/(?i:..) groups, fancy and plain) x texts over {a,A,b,B} x offsets: case_insensitive(true) == (?i) prefix, false == unset, ample limits change nothing; tiny delegate_size_limit must fail fancy hosts whose delegated piece fails as a plain pattern.",
+         "Every mixed-case pattern (inner (?-i:..)/(?i:..) groups, fancy and plain) x texts over {a,A,b,B} x offsets: case_insensitive(true) == (?i) prefix, false == unset, ample limits change nothing; tiny delegate_size_limit must fail fancy hosts whose delegated piece fails as a plain pattern. Option == inline flag is also compared through is_match, find_iter, split and replace; backtrack_limit(usize::MAX) changes nothing; every cased Unicode scalar value under the builder option; all contexts x fillers.",
          "No reference model.", "DESIGN.md §5 C14"),
  "C15": (E1, "bounded-exhaustive enumeration of conditional patterns x texts against a reference matcher",
-         "Every pattern with a conditional (both forms, at every nesting position up to the node bound, plus conditional contexts x fillers) x all texts x offsets, span and groups against the reference.",
+         "Every pattern with a conditional (both forms, at every nesting position up to the node bound, plus conditional contexts x fillers) x all texts x offsets, span and groups against the reference. Run twice: groups numbered, and groups named a, b, ... (names that collide with literals in expression conditions).",
          T_REF, "DESIGN.md §5 C15"),
  "C16": (E1, "bounded-exhaustive enumeration of patterns x group namings x texts; metadata against harness-side group count and name map",
-         "Every pattern of the unrestricted space with every capture group independently unnamed / named x texts x offsets: captures_len, capture_names, Captures::len/iter/get/name consistent with the harness AST, for delegated and VM-compiled patterns alike.",
+         "Every pattern of the unrestricted space with every capture group independently unnamed / named x texts x offsets: captures_len, capture_names, Captures::len/iter/get/name consistent with the harness AST, for delegated and VM-compiled patterns alike. get(i) is None for i >= len including the indices at which a slot computation wraps (usize::MAX, 1<<63, ...).",
          "None beyond rustc.", "DESIGN.md §5 C16"),
  "C17": (E1, "exhaustive enumeration of all strings up to a length bound over meta-characters and multi-byte characters, alone and in fancy hosts, against str::find",
-         "All strings up to length 3 (quick) / 4 (thorough) over the 15 meta-characters plus 10 others, each escaped alone and inside 6 host patterns, searched in a family of texts: span equals str::find of the literal; escape borrows iff nothing needed escaping.",
+         "All strings up to length 3 (quick) / 4 (thorough) over the 15 meta-characters plus 10 others, each escaped alone and inside 6 host patterns, searched in a family of texts: span equals str::find of the literal; escape borrows iff nothing needed escaping. Plus 1 065 long strings (ASCII stretch of every length 0..70, a multi-byte character, special characters) and a case-insensitive neighbour host.",
          "Oracle: str::find.", "DESIGN.md §5 C17"),
  "C18": (E3, "iterative preemption-bounded exhaustive exploration of thread interleavings of the real VM under a controlled scheduler (CHESS style)",
-         "Every schedule with at most 2 (quick) / 3 (thorough) preemptions of 2-3 real OS threads searching concurrently through a shared &Regex and through clones, scheduling points before every VM instruction; every call must return its sequential result. Plus the compile-time bound Send + Sync + Clone in a separate crate.",
+         "Every schedule with at most 2 (quick) / 3 (thorough) preemptions of 2-3 real OS threads searching concurrently through a shared &Regex and through clones, scheduling points before every VM instruction; every call must return its sequential result. Thread i starts with entry point i (captures / find_iter), so one thread iterates while another searches; the corpus includes \\G patterns and a 4-group delegate. Plus the compile-time bound Send + Sync + Clone in a separate crate.",
          "Interleavings only at hook points; regex-automata's internal pool is trusted; an access pair between two consecutive hook points is not separated.", "DESIGN.md §5 C18"),
  "C19": (E1, "bounded-exhaustive enumeration of patterns x respelling transformers at every site x texts; parse-tree equality and identical search results",
          "Every pattern x T1-T6 respellings (free spacing, comments, named/relative references, flag scoping, escapes, possessive/atomic) at every applicable site: Expr::parse_tree results equal and captures identical on all texts and offsets.",
          "Whitespace is inserted only where the documentation defines it as insignificant. KF-FLAG-SCOPE attributed by hook switch H7.", "DESIGN.md §5 C19"),
  "C20": (E2, "explicit-state breadth-first search (stateright) over all operation sequences on the VM's real backtracking state against a whole-copy reference, plus a whole-copy shadow monitor inside real runs",
-         "All sequences of {Save, Push, Pop, BeginAtomic, EndAtomic} up to depth 10 (2 slots x 2 values) / 7 (3x3) in the quick tier, deeper in the thorough tier, on the crate's real vm::State in lock-step with a whole-state-copy reference; searched twice and counts compared; the same discipline monitored inside millions of real vm::run executions.",
+         "All sequences of {Save, Push, Pop, BeginAtomic, EndAtomic} up to depth 10 (2 slots x 2 values) / 7 (3x3) in the quick tier, deeper in the thorough tier, on the crate's real vm::State in lock-step with a whole-state-copy reference; dense, sparse (slot indices [0,64], [1,33,65], ...) and long-frame (10-40 slots with Burst operations) configurations; searched twice and counts compared; the same discipline monitored inside millions of real vm::run executions.",
          "The VmState wrapper (hook H3) forwards to the private State methods without logic of its own.", "DESIGN.md §5 C20"),
 }
 
